@@ -23,7 +23,9 @@ func init() {
 			"C13.5 inbound provenance: the (payload, peer) pair handed to UDPConn.HandleInbound is (DATA, XOR-PEER-ADDRESS) of one message, resp. (decoded ChannelData payload, address bound to the decoded number); ReadFrom's select has the data, deadline and close cases; " +
 			"C13.6 the inbound path never blocks on a channel (C09.4); " +
 			"C13.7 (=C05.5) what is queued for ReadFrom is a private copy of the inbound payload, never a slice of the reusable socket read buffer; " +
-			"C13.8 (=C14.8) a binding is marked refreshed only after a confirmed bind; the read-deadline timer is never replaced.",
+			"C13.8 (=C14.8) a binding is marked refreshed only after a confirmed bind; the read-deadline timer is never replaced.; " +
+			"C13.9 the peer address of an inbound indication is decoded into storage of that one message (a local), never into a pooled or remembered object whose bytes a later message rewrites; " +
+			"C13.10 table keys made from net/netip values are unmapped first, so one peer spelled as 1.2.3.4 and as ::ffff:1.2.3.4 is one key (no instance while the module does not use net/netip).",
 		NotCovered: "uniqueness of channel numbers beyond 16384 live peers (the counter wraps), deadline timing, what the server answers.",
 		Run:        runC13,
 	})
@@ -557,6 +559,8 @@ func runC13(c *Ctx) {
 	ruleInboundCopy(c, "C13.7")
 	// ---- C13.8
 	ruleBindingFreshness(c, "C13.8")
+	ruleInboundAddrStorageFresh(c, "C13.9")
+	ruleNetipUnmapped(c, "C13.10", "client", "turn")
 }
 
 // ruleClientNumbers: shared by C08.4 and C13.4.
@@ -868,5 +872,145 @@ func ruleBindingFreshness(c *Ctx, rule string) {
 		c.OK(rule, "client.allocation", "readTimer", "-", "assigned only while the conn is constructed; SetReadDeadline resets the same timer")
 	} else {
 		c.Bad(rule, "client.allocation", "readTimer", "-", "the read-deadline timer is replaced after construction: a ReadFrom that is already blocked selects on the old timer's channel and never sees the new deadline")
+	}
+}
+
+// ruleInboundAddrStorageFresh (C13.9): the source address ReadFrom reports for a relayed
+// datagram is built from the XOR-PEER-ADDRESS decoded from the Data indication. The decoder
+// (stun's GetFromAs) re-uses the IP slice of its target in place, and the address queued with
+// the payload shares that slice. The decode target must therefore be storage of this one
+// message — a local of the handler — never part of a pooled or otherwise re-used object:
+// the next indication would rewrite the address of a datagram that is still queued (or already
+// returned to the application).
+func ruleInboundAddrStorageFresh(c *Ctx, rule string) {
+	w := c.W
+	c.Rule(rule, "inbound address storage: every proto.PeerAddress decoded on the client's inbound path (handleSTUNMessage and its helpers) is a local variable of that invocation, not a field of a pooled or remembered object", 1)
+	handle := w.Func("turn", "Client", "handleSTUNMessage")
+	n := 0
+	w.eachInstrDeep(handle, func(in ssa.Instruction) {
+		call, ok := in.(*ssa.Call)
+		if !ok {
+			return
+		}
+		cal := call.Call.StaticCallee()
+		if cal == nil || cal.Name() != "GetFrom" || len(call.Call.Args) < 1 {
+			return
+		}
+		if nmd := namedOf(call.Call.Args[0].Type()); nmd == nil || nmd.Obj().Name() != "PeerAddress" {
+			return
+		}
+		n++
+		c.Anchor(rule, "peer address decode")
+		org := map[string]bool{}
+		w.ptrOrigins(call.Call.Args[0], 5, map[ssa.Value]bool{}, org)
+		var bad []string
+		for k := range org {
+			if k != "fresh" {
+				bad = append(bad, k)
+			}
+		}
+		sort.Strings(bad)
+		if len(bad) == 0 && org["fresh"] {
+			c.OK(rule, fname(call.Parent()), "peer address decode", w.instrPos(in), "decoded into a local of this invocation")
+		} else {
+			c.Bad(rule, fname(call.Parent()), "peer address decode", w.instrPos(in), fmt.Sprintf("the peer address of an inbound indication is decoded into storage that outlives the message (%v): the decoder rewrites the IP bytes in place, so the source address of a datagram still queued for ReadFrom — or already returned by it — changes to that of a later datagram's peer", bad))
+		}
+	})
+	if n == 0 {
+		c.Anchor(rule, "peer address decode")
+		c.Bad(rule, fname(handle), "peer address decode", w.pos(handle.Pos()), "no XOR-PEER-ADDRESS decode on the inbound path: anchor gone")
+	}
+}
+
+// ruleNetipUnmapped (C13.10 / C08.8): a peer is one peer however its IPv4 address is spelled
+// (4-byte form, or 16-byte IPv4-mapped form as net.ParseIP and net.ResolveUDPAddr produce).
+// The tables of this module were keyed by texts that print both spellings alike; a
+// netip.Addr / netip.AddrPort taken from a net.IP, *net.UDPAddr or *net.TCPAddr keeps the
+// spelling apart unless Unmap() is applied. Every such value must therefore go through
+// Unmap() before anything else is done with its address part — otherwise one peer gets two
+// keys: two channel numbers, two permissions, a duplicate the conflict test cannot see.
+// (The rule has no instance on a tree that does not use net/netip.)
+func ruleNetipUnmapped(c *Ctx, rule string, pkgs ...string) {
+	w := c.W
+	c.Rule(rule, "spelling-independent peer keys: every netip.Addr obtained from (*net.UDPAddr).AddrPort, (*net.TCPAddr).AddrPort or netip.AddrFromSlice in the packages concerned is only ever passed to Unmap() (its port may be read); it is not compared, stored, returned or used as a key in mapped form", 0)
+	inPkg := map[string]bool{}
+	for _, p := range pkgs {
+		inPkg[w.tpkg(p).Path()] = true
+	}
+	var useOK func(v ssa.Value, isAddrPort bool, depth int) (bool, ssa.Instruction)
+	useOK = func(v ssa.Value, isAddrPort bool, depth int) (bool, ssa.Instruction) {
+		if v.Referrers() == nil || depth > 4 {
+			return true, nil
+		}
+		for _, r := range *v.Referrers() {
+			switch x := r.(type) {
+			case *ssa.DebugRef:
+				continue
+			case *ssa.Extract:
+				if x.Index == 0 {
+					if ok, at := useOK(x, isAddrPort, depth+1); !ok {
+						return false, at
+					}
+				}
+				continue
+			case *ssa.Call:
+				switch stdCallee(&x.Call) {
+				case "(net/netip.Addr).Unmap":
+					continue
+				case "(net/netip.AddrPort).Port", "(net/netip.AddrPort).IsValid", "(net/netip.Addr).IsValid", "(net/netip.Addr).Is4In6", "(net/netip.Addr).Is4", "(net/netip.Addr).Is6":
+					continue
+				case "(net/netip.AddrPort).Addr":
+					if ok, at := useOK(x, false, depth+1); !ok {
+						return false, at
+					}
+					continue
+				}
+				// handed to a module helper: what the helper does with that parameter
+				if h := x.Call.StaticCallee(); h != nil && w.IsMod[h] && len(h.Blocks) > 0 {
+					okAll := true
+					var where ssa.Instruction
+					for j, a := range x.Call.Args {
+						if a == v && j < len(h.Params) {
+							if ok, at := useOK(h.Params[j], isAddrPort, depth+1); !ok {
+								okAll, where = false, at
+							}
+						}
+					}
+					if okAll {
+						continue
+					}
+					return false, where
+				}
+				return false, r
+			default:
+				return false, r
+			}
+		}
+		return true, nil
+	}
+	for _, fn := range w.ModFns {
+		if !inPkg[fnPkgPath(fn)] || fn.Synthetic != "" {
+			continue
+		}
+		w.eachInstr(fn, func(in ssa.Instruction) {
+			call, ok := in.(*ssa.Call)
+			if !ok {
+				return
+			}
+			isAP := false
+			switch stdCallee(&call.Call) {
+			case "(*net.UDPAddr).AddrPort", "(*net.TCPAddr).AddrPort":
+				isAP = true
+			case "net/netip.AddrFromSlice":
+			default:
+				return
+			}
+			c.Anchor(rule, fname(fn))
+			if ok, at := useOK(call, isAP, 0); ok {
+				c.OK(rule, fname(fn), "netip value", w.instrPos(in), "only ever unmapped")
+			} else {
+				c.Bad(rule, fname(fn), "netip value", w.instrPos(in), "the netip address taken from a net.IP / net.UDPAddr here is used at "+w.instrPos(at)+" without Unmap(): 1.2.3.4 and ::ffff:1.2.3.4 (the same peer as net.ParseIP or a resolver spells it) become two different keys — one peer is bound or permitted twice, and conflict tests do not see the duplicate")
+			}
+		})
 	}
 }
